@@ -1,5 +1,6 @@
 import Driver.Codec
 import DfModel.Validate
+import DfModel.LoadChain
 
 open Lean
 namespace Df.Ops
@@ -36,7 +37,23 @@ def opValidate (j : Json) : R Json := do
         | some e => e.2.2
         | none => false))
     | p => throw s!"bad policy {p}"
-  match schemaValidator cast pol res fields rows with
+  -- `chain`: load's wrapper chain (caster, stripper, limiter) instead of the bare validator
+  let chain := boolD j "chain" false
+  let strip := boolD j "strip" false
+  let trig : Nat → Bool := fun c => c == 32 || c == 9 || c == 10 || c == 13
+  let ws ← (arrD j "ws").toList.mapM (·.getNat?)
+  let W : Nat → Bool := fun c => ws.contains c
+  let post : Row → Row := fun r =>
+    if strip then r.map (fun kv => match kv.2 with
+      | .str s => (kv.1, .str (String.ofList ((Load.stripCell trig W (s.toList.map Char.toNat)).map Char.ofNat)))
+      | v => (kv.1, v))
+    else r
+  let limit : Option Nat := match (j.getObjVal? "limit").bind (·.getNat?) with
+    | .ok n => some n
+    | .error _ => none
+  let result := if chain then Load.loadChain cast pol res fields post limit rows
+                else schemaValidator cast pol res fields rows
+  match result with
   | .ok out => return Json.mkObj [("ok", Json.arr (out.map encRow).toArray)]
   | .error (.validation r i) => return Json.mkObj [("err", "validation"), ("res", r), ("index", i)]
   | .error e => return encErr e
